@@ -19,7 +19,7 @@ OPS = ["hash", "hash_elements", "merge", "merge_many", "merge_with_int"]
 
 META = dict(
     technique="TLC model checking of normal-form injectivity over structured input families on the symbolic sponge (free permutation) and on the byte layouts + replay of every family member on the real hashers (pairwise distinct digests)",
-    text="For each of 6 hashers x 5 entry points TLC enumerates the family (byte strings of all lengths 0..72 (0..340) in 4 content kinds each zero-extended by 10 (11) amounts around chunk/rate multiples; element lists = 0..3 zeros + run of 0..10 (0..48) pool elements + 0..9 (0..17) zeros; the same cut into digests; seeds x integers x+k*p) and checks that no two distinct members share the normal form that determines the digest under an ideal permutation / primitive; all members (27k quick, ~150k thorough) are hashed by the real code and must give pairwise different digests.",
+    text="For each of 6 hashers x 5 entry points (hash_elements once per element degree 1, 2, 3) TLC enumerates the family (byte strings of all lengths 0..72 (0..340) in 4 content kinds each zero-extended by 10 (11) amounts around chunk/rate multiples; element lists = 0..3 zeros + run of 0..10 (0..48) pool elements + 0..9 (0..17) zeros; the same cut into digests; seeds x integers x+k*p) and checks that no two distinct members share the normal form that determines the digest under an ideal permutation / primitive; all members (27k quick, ~150k thorough) are hashed by the real code and must give pairwise different digests.",
     note="Collision freedom is relative to an ideal permutation / primitive (accidental collisions have probability < 2^-60 and are not modelled); families are exhaustive within the stated bounds, inputs outside the families are not covered; byte hashers are instantiated over the 64-bit field.",
     design="7/C17")
 
@@ -45,7 +45,7 @@ def case_class(c):
         n = len(c["bytes"])
         return ("len>=57" if n >= 57 else "len<57") + (" len%7==0" if n % 7 == 0 else " len%7!=0")
     if op == "hash_elements":
-        return "n=%d" % len(c["elems"])
+        return "deg=%d n=%d" % (c.get("deg", 1), len(c["elems"]) // c.get("deg", 1))
     if op in ("merge", "merge_many"):
         return "k=%d" % len(c["ds"])
     return "int=%s" % "".join("%02x" % b for b in reversed(c["int"]))
@@ -96,18 +96,21 @@ def run(ck, tier):
     fams = r.tagged("FAMILY")
     collisions = r.tagged("COLLISION")
     cases = r.tagged("REPLAY")
-    ck.require(r.distinct == len(ALL) * len(OPS), "TLC explored %d families, expected %d" % (r.distinct, len(ALL) * len(OPS)))
-    ck.require(len(fams) + len({(c["x"]["h"], c["x"]["op"]) for c in collisions}) == len(ALL) * len(OPS),
+    nfam = len(ALL) * (len(OPS) + 2)        # hash_elements has one family per element degree 1, 2, 3
+    ck.require(r.distinct == nfam, "TLC explored %d families, expected %d" % (r.distinct, nfam))
+    fkey = lambda c: (c["h"], c["op"], c.get("deg", 1))
+    ck.require(len(fams) + len({fkey(c["x"]) for c in collisions}) == nfam,
                "a family reported neither separation nor a collision")
     per = {}
     for c in cases:
-        per[(c["h"], c["op"])] = per.get((c["h"], c["op"]), 0) + 1
+        per[fkey(c)] = per.get(fkey(c), 0) + 1
     for f in fams:
-        ck.require(per.get((f["h"], f["op"]), 0) == f["members"],
-                   "family %s.%s: %d members printed, %d checked" % (f["h"], f["op"], per.get((f["h"], f["op"]), 0), f["members"]))
+        ck.require(per.get(fkey(f), 0) == f["members"],
+                   "family %s.%s/%d: %d members printed, %d checked" % (f["h"], f["op"], f["deg"], per.get(fkey(f), 0), f["members"]))
     for h in ALL:
-        for op, lo in (("hash", 2000), ("hash_elements", 1000), ("merge", 40), ("merge_many", 200), ("merge_with_int", 20)):
-            ck.require(per.get((h, op), 0) >= lo, "family %s.%s has only %d members" % (h, op, per.get((h, op), 0)))
+        for op, deg, lo in (("hash", 1, 2000), ("hash_elements", 1, 1000), ("hash_elements", 2, 300), ("hash_elements", 3, 200),
+                            ("merge", 1, 40), ("merge_many", 1, 200), ("merge_with_int", 1, 20)):
+            ck.require(per.get((h, op, deg), 0) >= lo, "family %s.%s/%d has only %d members" % (h, op, deg, per.get((h, op, deg), 0)))
     pairs = sum(n * (n - 1) // 2 for n in per.values())
     # every member on the real hashers
     findings, summary = run_distinct(binary, "families", cases)
@@ -115,7 +118,7 @@ def run(ck, tier):
     ck.traces += summary["cases"]
     ck.evaluations += pairs
     ck.part("families", members=summary["cases"], hashed=summary["hashed"], panics=summary["panics"], equal_digests=summary["equal"],
-            pairs_covered=pairs, per_family={"%s.%s" % k: v for k, v in sorted(per.items())})
+            pairs_covered=pairs, per_family={"%s.%s/%d" % k: v for k, v in sorted(per.items())})
     ck.require(summary["hashed"] > 0.8 * summary["cases"], "too few members produced a digest")
     # spec-level collisions: design findings, confirmed on the real code before they count
     for col in collisions[:50]:
